@@ -5,6 +5,7 @@ From Coq Require Import ZArith Reals List.
 Import ListNotations.
 Require Import MD.Gen.RmsdFormulas MD.Rmsd.Model MD.Rmsd.AlgebraZ MD.Rmsd.AlgebraR MD.Rmsd.Quaternion
                MD.Rmsd.Optimal MD.Rmsd.Variants MD.Rmsd.Solver MD.Rmsd.Headline.
+Require Import MD.Gen.RmsdLayout MD.Rmsd.Layout MD.Rmsd.LayoutProofs MD.Rmsd.Selection MD.Rmsd.SelectionProofs.
 
 (* ================= polynomial identities of the code, over Z (closed) ========================= *)
 Section Z. Import ZM. Local Open Scope Z_scope.
@@ -78,6 +79,56 @@ Theorem superpose_rigid_poly : forall i u v, let n := qnorm2 i in
 Proof. exact superpose_rigid_Z. Qed.
 Print Assumptions superpose_rigid_poly.
 End Z.
+
+(* ================= memory layout and loop structure of the SIMD kernels (closed) ================ *)
+(* Lay is regenerated from theobald_rmsd_sse.h:msd_atom_major, rotation_sse.h:rot_atom_major and
+   center_sse.h:inplace_center_and_trace_atom_major on every run (iteration counts, mask table, set_ps loads) *)
+Section LayoutZ. Local Open Scope nat_scope.
+
+(* the lane pairs msd_atom_major multiplies are the n atom pairs in order, then zero pairs; no read outside 3 n floats *)
+Theorem layout_msd_lanes : forall n a b, length a = 3 * n -> length b = 3 * n ->
+  msd_pairs n a b = Some (pairs_spec n a b ++ repeat zero_pair (4 * Lay.msd_niters n - n)).
+Proof. exact msd_pairs_spec. Qed.
+Print Assumptions layout_msd_lanes.
+
+(* hence msdFromMandG receives exactly Model.v's input record for the atom pairs (a_i, b_i): every n, all n mod 4 *)
+Theorem layout_kernel_input : forall n a b lam qa qb qc qd, length a = 3 * n -> length b = 3 * n ->
+  kernel_inp n a b lam qa qb qc qd = Some (ZM.inp_of (pairs_spec n a b) lam qa qb qc qd).
+Proof. exact kernel_inp_spec. Qed.
+Print Assumptions layout_kernel_input.
+
+(* rot_atom_major and both passes of the centring kernel touch every atom 0..n-1 exactly once, in order *)
+Theorem layout_rot_center_visit_each_atom_once : forall n,
+  rot_visited n = seq 0 n /\ center_visited1 n = seq 0 n /\ center_visited2 n = seq 0 n.
+Proof. intros n. exact (conj (rot_visits_each_atom_once n) (center_visits_each_atom_once n)). Qed.
+Print Assumptions layout_rot_center_visit_each_atom_once.
+
+Theorem layout_rot_buffer : forall n a r0 r1 r2 r3 r4 r5 r6 r7 r8, length a = 3 * n ->
+  rot_buffer n a r0 r1 r2 r3 r4 r5 r6 r7 r8 =
+  Some (map (fun i => (i, ZM.rowmul (unflat_atom a i) r0 r1 r2 r3 r4 r5 r6 r7 r8)) (seq 0 n)).
+Proof. exact rot_buffer_spec. Qed.
+Print Assumptions layout_rot_buffer.
+
+(* asked for more atoms than the buffer holds, the kernel reads outside it (what md.rmsf does with atom_indices) *)
+Theorem layout_rot_buffer_overrun : forall n m a r0 r1 r2 r3 r4 r5 r6 r7 r8, length a = 3 * n -> n < m ->
+  rot_buffer m a r0 r1 r2 r3 r4 r5 r6 r7 r8 = None.
+Proof. exact rot_buffer_overrun. Qed.
+Print Assumptions layout_rot_buffer_overrun.
+
+Theorem layout_strides : Lay.msd_stride = 12 /\ Lay.rot_stride = 12.
+Proof. exact (conj eq_refl eq_refl). Qed.
+Print Assumptions layout_strides.
+
+Theorem layout_frame_pointer : forall n k buf i, atom_at (frame_ptr n k buf) i = atom_at buf (n * k + i).
+Proof. exact frame_ptr_atom. Qed.
+Print Assumptions layout_frame_pointer.
+
+(* non-vacuity: the option type is not decoration -- a buffer one float short is an error *)
+Example layout_short_buffer_is_an_error :
+  msd_pairs 5 [1; 2; 3; 4; 5; 6; 7; 8; 9; 10; 11; 12; 13; 14]%Z [1; 2; 3; 4; 5; 6; 7; 8; 9; 10; 11; 12; 13; 14; 15]%Z = None.
+Proof. exact short_buffer_is_an_error. Qed.
+Print Assumptions layout_short_buffer_is_an_error.
+End LayoutZ.
 
 (* ================= statements over R (standard real-number axioms) ============================ *)
 Section Real. Import RM. Local Open Scope R_scope.
@@ -183,6 +234,32 @@ Theorem superpose_attains : forall al rf lam, let l := pairs_of al rf in let i :
   dev = Ga l + Gb l - 2 * lam /\ (forall r t, proper_rotation r -> dev <= resid r t l).
 Proof. exact Optimal.superpose_attains. Qed.
 Print Assumptions superpose_attains.
+
+(* ---- separate atom selections for the mobile and the reference structure (any order, repetitions allowed) *)
+(* Trajectory.superpose(reference, frame, atom_indices=A, ref_atom_indices=B): ALL atoms are moved by one
+   distance-preserving map, and the atoms A of the result against the atoms B of the reference attain the minimum
+   over all proper rotations and translations (same solver hypotheses as superpose_attains) *)
+Theorem superpose_honours_selections : forall A B mob ref lam al rf,
+  select A mob = Some al -> select B ref = Some rf -> al <> [] -> length al = length rf ->
+  let l := pairs_of al rf in let i := inp_of l lam in
+  RM.charpoly i lam = 0 -> dominates i lam -> ~ Rf.fallback i ->
+  exists out, superpose_sel A B mob ref lam = Some out /\ length out = length mob /\
+    (exists f, out = map f mob /\ forall u v, dist2 (f u) (f v) = dist2 u v) /\
+    exists al', select A out = Some al' /\
+      let dev := sumf (fun p => dist2 (fst p) (snd p)) (combine al' rf) in
+      dev = Ga l + Gb l - 2 * lam /\ forall r t, proper_rotation r -> dev <= resid r t l.
+Proof. exact superpose_selection. Qed.
+Print Assumptions superpose_honours_selections.
+
+Theorem rmsd_honours_selections : forall A B tgt ref al rf, select A tgt = Some al -> select B ref = Some rf ->
+  length A = length B -> rmsd_sel_pairs A B tgt ref = Some (pairs_of al rf) /\ length (pairs_of al rf) = length A.
+Proof. exact rmsd_selection_pairs. Qed.
+Print Assumptions rmsd_honours_selections.
+
+Theorem selection_index_out_of_range_is_an_error : forall (A : list nat) (l : list v3) i,
+  In i A -> (length l <= i)%nat -> select A l = None.
+Proof. exact selection_out_of_range. Qed.
+Print Assumptions selection_index_out_of_range_is_an_error.
 
 (* two-variant rule for the choice of the adjugate column *)
 Theorem superpose_attains_cur_refuted : exists l lam, let i := inp_of l lam in
